@@ -682,7 +682,7 @@ func Index(s, substr []byte) int {
 
 	fails := 0
 	// TODO: see if we can stop sooner.
-	t := len(s) - len(substr)/3 + 1
+	t := len(s) - len(substr)/3 + 2
 	if t > len(s) {
 		t = len(s)
 	}
